@@ -1,1 +1,73 @@
-import EoNVerif.Model.Discrete
+import EoNVerif.Proofs.Discrete
+/-!
+C12 — properties of the discrete-time simulators (`discrete_SIR`, `basic_discrete_*`, `percolate_network`).
+Helper lemmas and the well-formedness predicate `Discrete.WF` live in `EoNVerif.Proofs.Discrete`.
+-/
+namespace Discrete
+
+/-- **pathwise generation rule**: for every outcome table of the contacts, the next generation is exactly the set of
+susceptible nodes with at least one successful contact from a currently infectious neighbour -/
+theorem step_newInf (P : DParams) (s : DState) (v : Node) (hv : v ∈ P.nodes) (hnot : v ∉ s.inf) :
+    v ∈ (step P s).inf ↔ (s.sus v = true ∧ ∃ u ∈ s.inf, v ∈ P.nbrs u ∧ P.rule u v = true) :=
+  step_newInf' P s v hv hnot
+
+/-- default recovery rule: every infectious node is infectious for exactly one step -/
+theorem one_step_infectious (P : DParams) (h : P.recSteps = none) (s : DState)
+    (hs : ∀ u ∈ s.inf, s.sus u = false) (u : Node) (hu : u ∈ s.inf) : u ∉ (step P s).inf :=
+  one_step_infectious' P h s hs u hu
+
+/-- **conservation**: every row has S + I + R = N -/
+theorem conserve (P : DParams) (infs recs : List Node) (h : WF P infs recs) (fuel : Nat) :
+    let s := run P infs recs fuel
+    ∀ i, i < s.t.length → s.S.getD i 0 + s.I.getD i 0 + s.R.getD i 0 = (P.nodes.length : Int) :=
+  (consInv_run P infs recs h fuel).rows
+
+/-- rows are equally long and times advance by exactly one step from `tmin` -/
+theorem rows_shape (P : DParams) (infs recs : List Node) (fuel : Nat) :
+    let s := run P infs recs fuel
+    s.S.length = s.t.length ∧ s.I.length = s.t.length ∧ s.R.length = s.t.length ∧
+    ∀ i, i < s.t.length → s.t.reverse.getD i 0 = P.tmin + (i : Rat) :=
+  rows_shape' P infs recs fuel
+
+/-- **BFS**: when the loop has stopped (no infecteds left or horizon reached), a node is infected exactly at
+`tmin +` its breadth-first distance from the initial set in the digraph of successful contacts (initially recovered
+nodes removed), if that step was simulated; holds for the default rule and for every recovery rule -/
+theorem bfs_correct (P : DParams) (infs recs : List Node) (h : WF P infs recs) (fuel : Nat)
+    (hstop : let s := run P infs recs fuel
+             s.inf.isEmpty = true ∨ ERat.lt (some (s.t.headD P.tmin)) P.tmax = false) :
+    isBFS P infs recs (run P infs recs fuel).infTime = true :=
+  bfs_correct' P infs recs h fuel hstop
+
+/-- the iteration order of the infectious set does not matter -/
+theorem step_perm (P : DParams) (s s' : DState) (hp : s.inf.Perm s'.inf)
+    (hsus : s.sus = s'.sus) (hage : s.age = s'.age) (ht : s.t = s'.t) (hn : s.nS = s'.nS) (hr : s.totR = s'.totR) :
+    (step P s).inf = (step P s').inf ∧ (step P s).nS = (step P s').nS ∧ (step P s).totR = (step P s').totR ∧
+    (step P s).infTime.drop s.infTime.length = (step P s').infTime.drop s'.infTime.length :=
+  step_perm' P s s' hp hsus hage ht hn hr
+
+/-- **per-node marginal of the basic simulators**: with `k` infectious neighbours, each contact an independent
+Bernoulli(p), a susceptible node is infected with probability `1 - (1-p)^k` -/
+theorem basic_marginal (p : Rat) (k : Nat) :
+    Dist.mass (anyContact p k) (fun b => b) = infProb p k :=
+  basic_marginal' p k
+
+/-- **percolate_network**: a given set of kept edges (as the sublist selected by `keep`) has probability
+`p^|A| (1-p)^(m-|A|)` -/
+theorem percolate_edge_law {ε : Type} [DecidableEq ε] (p : Rat) (edges : List ε) (hn : edges.Nodup) (keep : ε → Bool) :
+    Dist.mass (percolateDist p edges) (fun kept => kept == edges.filter keep) =
+      p ^ (edges.filter keep).length * (1 - p) ^ (edges.length - (edges.filter keep).length) :=
+  percolate_edge_law' p edges hn keep
+
+/-- the percolated graph only ever contains edges of the original one -/
+theorem percolate_support {ε : Type} [DecidableEq ε] (p : Rat) (edges : List ε) (kept : List ε)
+    (hk : ∃ q, (kept, q) ∈ percolateDist p edges) : kept.Sublist edges :=
+  percolate_support' p edges kept hk
+
+end Discrete
+
+/-! non-vacuity: path 0-1-2-3 with one failed contact -/
+def exDn (u : Node) : List Node := match u with | 0 => [1] | 1 => [0, 2] | 2 => [1, 3] | 3 => [2] | _ => []
+def exD : DParams :=
+  { nodes := [0, 1, 2, 3], nbrs := exDn, rule := fun u v => !(u == 2 && v == 3), recSteps := none, tmin := 0, tmax := none }
+example : (Discrete.run exD [0] [] 10).infTime = [(1, 1), (2, 2)] := by decide +kernel
+example : Discrete.isBFS exD [0] [] (Discrete.run exD [0] [] 10).infTime = true := by decide +kernel
